@@ -907,6 +907,12 @@ var ReverseListFunc = function.New(&function.Spec{
 	RefineResult: refineNonNull,
 	Impl: func(args []cty.Value, retType cty.Type) (ret cty.Value, err error) {
 		in, marks := args[0].Unmark()
+		if in.Type().IsSetType() && !in.IsWhollyKnown() {
+			// Elements of a set that aren't known yet might turn out to be
+			// equal to other elements, so neither the length nor the order
+			// of the result is known yet.
+			return cty.UnknownVal(retType).WithMarks(marks), nil
+		}
 		inVals := in.AsValueSlice()
 		outVals := make([]cty.Value, len(inVals))
 
